@@ -60,6 +60,38 @@ Example C18_sweep_step_min_nonvacuous :
   let env := tent (0, 4 # 1) (3 # 1) in tent (0, 4 # 1) (3 # 1) <= env /\ env <= qmax 0 ((4 # 1) - (3 # 1)) /\ 0 <= 2 # 1 /\ 4 # 1 <= 6 # 1.
 Proof. vm_compute. repeat split; discriminate. Qed.
 
+(* ---------------------------------------------------------------- the characteristic-point sweep (algorithm model) *)
+(* Bq/Dq = birth/death of a characteristic point, Tq t c = its (reduced) tent value, Vq t l = the tent values of a list,
+   lexsorted = sorted by birth ascending, death descending (the order of compare_points_sorting), validl = birth <= death,
+   epssep = births closer than the tolerance epsi of almost_equal are equal.
+   One run of the inner loop of construct_persistence_landscape_from_barcode (one_level = sweep_level with its two inner
+   while loops): the list newCharacteristicPoints handed to the next level is again sorted, valid and epsilon-separated and,
+   at every t, the (k+1)-th largest tent of the swept list is the k-th largest tent of the handed-on list, for every k.
+   This covers every tie-handling branch (equal births, equal deaths, repeated, nested, touching intervals). *)
+Theorem C18_sweep_one_level_residual : forall cps lam newc, one_level cps = Some (lam, newc) ->
+  lexsorted cps -> validl cps -> epssep cps ->
+  lexsorted newc /\ validl newc /\ epssep newc /\
+  (forall t k, nth (S k) (sort_desc (Vq t cps)) 0 = nth k (sort_desc (Vq t newc)) 0).
+Proof. exact one_level_residual. Qed.
+Print Assumptions C18_sweep_one_level_residual.
+
+(* residual j cps = the list of characteristic points that reaches level j.  For every diagram (birth <= death, births
+   not closer than epsi unless equal), every level j that the sweep reaches, every t and k: lambda_{j+k}(t) is the k-th
+   largest tent of the list swept at level j; in particular lambda_j(t) is the maximum of those tents. *)
+Theorem C18_sweep_residual_lambda : forall D j R, valid_diagram D -> eps_separated D -> residual j (first_cps D) = Some R ->
+  forall t k, lambda D (j + k) t = nth k (sort_desc (Vq t R)) 0.
+Proof. exact sweep_residual_lambda. Qed.
+Print Assumptions C18_sweep_residual_lambda.
+Example C18_sweep_residual_lambda_nonvacuous :
+  let D := [(0, 4 # 1); (1, 3 # 1); (2 # 1, 6 # 1); (0, 4 # 1)] in
+  (forall bd, In bd D -> fst bd <= snd bd) /\
+  residual 2 (first_cps D) = Some [(2 # 1, 1); (3 # 1, 1)].
+Proof.
+  split.
+  - simpl. intros bd [H|[H|[H|[H|[]]]]]; subst bd; simpl; discriminate.
+  - vm_compute. reflexivity.
+Qed.
+
 (* ---------------------------------------------------------------- piecewise-linear functions *)
 (* a PL function takes its ordinate at each of its breakpoints *)
 Theorem C18_interp_at_breakpoint : forall l p, xsorted l -> In p l -> interp l (fst p) == snd p.
@@ -256,10 +288,10 @@ Proof. exact grid_value_at_grid_point. Qed.
 Print Assumptions C18_grid_value_at_grid_point.
 
 (* ---------------------------------------------------------------- not proved: compared per input by the correspondence run *)
-Definition valid_diagram (D : list (Q * Q)) : Prop := forall bd, In bd D -> fst bd <= snd bd.
-(* the characteristic-point sweep of construct_persistence_landscape_from_barcode followed by the bisection of
-   compute_value_at_a_given_point yields lambda_k(t) for every diagram, level and point.  Missing: an invariant of the
-   sweep relating newCharacteristicPoints to the remaining tents.  Evaluated on every generated input. *)
+(* the breakpoint list produced at level j (first component of one_level), evaluated by the bisection of
+   compute_value_at_a_given_point, yields lambda_j(t).  Proved: the lists swept at each level carry the right tents
+   (C18_sweep_residual_lambda) and the bisection evaluates the PL interpolation (C18_value_at_is_interp).  Missing: that the
+   breakpoints pushed to lambda_n are the upper envelope of the swept tents.  Evaluated on every generated input. *)
 Definition C18_sweep_eq_lambda_full : Prop :=
   forall D k t, valid_diagram D ->
     match construct D 0 with
